@@ -61,6 +61,10 @@ pub struct RunOut {
     pub known_hits: Vec<(String, Violation)>,
     /// readable storage-op log (only when TVSIM_OPLOG is set)
     pub oplog: Vec<String>,
+    pub spawn_count: u64,
+    pub setup_ops: u64,
+    /// storage ops issued when the workload (the fault-armed phase) ended
+    pub workload_ops: u64,
 }
 
 impl RunOut {
@@ -74,10 +78,19 @@ impl RunOut {
         if self.violations.len() < 8 {
             self.violations.push(Violation { prop: prop.into(), oracle: oracle.into(), detail });
         }
+        if oracle.contains("panic") {
+            // A panic that unwound through code using the scheduler's primitives leaves the
+            // simulated runtime in an undefined state (shuttle does not block a panicking
+            // task): the execution cannot continue. Leave it at once with what we have.
+            ESCALATED.with(|e| *e.borrow_mut() = Some(self.clone()));
+            panic!("TVSIM-ESCALATE");
+        }
     }
 }
 
 thread_local! {
+    /// outcome handed to the runner when the execution is abandoned after a panic in tantivy
+    pub static ESCALATED: std::cell::RefCell<Option<RunOut>> = const { std::cell::RefCell::new(None) };
     /// ids of the open known findings (from /verif/known_findings.json, passed by the driver)
     pub static KNOWN: std::cell::RefCell<Vec<String>> = const { std::cell::RefCell::new(Vec::new()) };
     pub static LAST_PANIC: std::cell::RefCell<String> = const { std::cell::RefCell::new(String::new()) };
@@ -350,6 +363,7 @@ impl<'a> Exec<'a> {
             k.segment_counter = Some(1);
             k.flush_after_docs = cfg.flush_after;
             k.mem_budget = cfg.mem_budget;
+            k.fail_spawn_at = cfg.fail_spawn_at;
         });
         tantivy::verif_sim::reset_caught_thread_panics();
         let (schema, fields) = model::build_schema(cfg.sort_ty);
@@ -429,6 +443,7 @@ impl<'a> Exec<'a> {
             self.trace(format!("op{i} {}", short_op(op)));
             self.exec_op(op);
         }
+        self.out.workload_ops = self.dir.op_count();
     }
 
     pub fn exec_op(&mut self, op: &Op) {
@@ -978,7 +993,9 @@ impl<'a> Exec<'a> {
             });
         }
         self.out.log_hash = hash;
+        self.out.spawn_count = tantivy::verif_sim::with_knobs(|k| k.spawn_count);
         self.out.storage_ops = ops;
+        self.out.setup_ops = self.setup_ops;
         self.out.sim_time_us = time + tantivy::verif_sim::with_knobs(|k| k.clock_us);
         self.out.sched_sig = sig;
         for (k, v) in stats.faults_fired {
